@@ -135,9 +135,29 @@ type recorder struct {
 	to        []px.ValueConsumer
 	events    []event
 	positions int
+	open      []bool // per position: a container that has not been closed yet
+	cyclic    bool   // a reference to an open container was delivered: the consumers hold a cyclic value
 	stack     []frame
 	wf        []string // violated stream clauses: "clause|detail"
 	refs      int
+	// scenarios with several conversions on one Serializer (reent.go): note is called for every event recorded
+	// (the global order of the calls), gate at the entry of every consumer call and after a container has been
+	// closed - the points at which another conversion may be started or let run
+	note func()
+	gate func()
+}
+
+func (r *recorder) record(e event) {
+	r.events = append(r.events, e)
+	if r.note != nil {
+		r.note()
+	}
+}
+
+func (r *recorder) atGate() {
+	if r.gate != nil {
+		r.gate()
+	}
 }
 
 func (r *recorder) CanDoBinary() bool         { return r.cfg.Bin }
@@ -163,7 +183,8 @@ func (r *recorder) child(isPlainString bool, what string) {
 }
 
 func (r *recorder) Add(v px.Value) {
-	r.events = append(r.events, event{K: "add", V: v})
+	r.atGate()
+	r.record(event{K: "add", V: v})
 	isStr := false
 	switch v.(type) {
 	case *types.UndefValue, px.Integer, px.Float, px.Boolean:
@@ -178,16 +199,22 @@ func (r *recorder) Add(v px.Value) {
 	}
 	r.child(isStr, fmt.Sprintf("%T", v))
 	r.positions++
+	r.open = append(r.open, false)
 	for _, c := range r.to {
 		c.Add(v)
 	}
 }
 
 func (r *recorder) AddRef(n int) {
-	r.events = append(r.events, event{K: "ref", N: n})
+	r.atGate()
+	r.record(event{K: "ref", N: n})
 	r.refs++
 	if n < 0 || n >= r.positions {
 		r.bad("stream-ref-earlier", fmt.Sprintf("event %d: AddRef(%d) but only %d positions have been produced", len(r.events)-1, n, r.positions))
+	} else if r.open[n] {
+		// values are immutable and therefore acyclic: no value equals a container it is an element of
+		r.cyclic = true
+		r.bad("stream-ref-earlier", fmt.Sprintf("event %d: AddRef(%d) refers to the container opened at position %d, which is still under construction", len(r.events)-1, n, n))
 	}
 	r.child(false, "a reference")
 	for _, c := range r.to {
@@ -196,9 +223,12 @@ func (r *recorder) AddRef(n int) {
 }
 
 func (r *recorder) nested(kind string, n int, doer px.Doer) {
-	r.events = append(r.events, event{K: kind, N: n})
+	r.atGate()
+	r.record(event{K: kind, N: n})
 	r.child(false, "a container")
+	myPos := r.positions
 	r.positions++
+	r.open = append(r.open, true)
 	r.stack = append(r.stack, frame{hash: kind == "hash"})
 	var rec func(i int)
 	rec = func(i int) {
@@ -219,12 +249,14 @@ func (r *recorder) nested(kind string, n int, doer px.Doer) {
 			return
 		}
 		closed = true
+		r.open[myPos] = false
 		f := r.stack[len(r.stack)-1]
 		r.stack = r.stack[:len(r.stack)-1]
 		if f.hash && f.children%2 != 0 {
 			r.bad("stream-hash-alternates", fmt.Sprintf("the hash opened before event %d received %d children", len(r.events), f.children))
 		}
-		r.events = append(r.events, event{K: "end"})
+		r.record(event{K: "end"})
+		r.atGate()
 	}
 	inner := doer
 	doer = func() { inner(); closeFrame() }
@@ -244,6 +276,7 @@ type outcome struct {
 	result    px.Value // deserializer's value; nil after a fault/error
 	resFault  string   // "fault|msg" or "error|msg" raised by the deserializer's Value()
 	refs      int
+	overlapped bool    // the conversion shared its Serializer with others (reent.go)
 }
 
 func panicClass(e interface{}) string {
@@ -278,6 +311,10 @@ func runOne(ctxS px.Context, v px.Value, cfg Config) (out outcome) {
 	if out.serFault != "" {
 		return
 	}
+	if rec.cyclic {
+		out.resFault = cyclicFault
+		return
+	}
 	func() {
 		defer func() {
 			if e := recover(); e != nil {
@@ -289,6 +326,10 @@ func runOne(ctxS px.Context, v px.Value, cfg Config) (out outcome) {
 	}()
 	return
 }
+
+// Value() of a consumer that was handed a reference to a container under construction holds a cyclic value;
+// walking it (the deserializer does) never ends, so it is not asked for
+const cyclicFault = "fault|not evaluated: the stream refers to a container under construction, the consumers hold a cyclic value"
 
 func eventsText(evs []event) []string {
 	r := make([]string, len(evs))
